@@ -25,7 +25,7 @@ Definition parse_sop (w : list string) : option sop :=
       | _, _ => None
       end
   | ["c"; n; k; id] =>
-      match nat_of_dec k, nat_of_dec id with Some kv, Some i => Some (SDef n (mkF i 0 (KCpp kv) kv None)) | _, _ => None end
+      match nat_of_dec k, nat_of_dec id with Some kv, Some i => Some (SDef n (mkF i 0 (KCpp kv) (Nat.modulo kv 10) None)) | _, _ => None end
   | ["ka"; c; n; id] => match nat_of_dec id with Some i => Some (SDef n (mkF i 0 (KAttr c) 1 None)) | None => None end
   | ["km"; c; n; ar; id] =>
       match nat_of_dec ar, nat_of_dec id with Some a, Some i => Some (SDef n (mkF i 0 (KMethod c) a None)) | _, _ => None end
